@@ -255,3 +255,19 @@ reg("C18", harness="c18_huff", level="exploration", deadline=(300, 1800), extra_
     level_note="histograms outside the weight alphabet/subsets are not enumerated; entry emission re-states igzip/huffman.h getters; trusted: ref_inflate header parser.",
     runs=[dict(flavour="sim", part="weights"), dict(flavour="sim", part="shapes"), dict(flavour="sim", part="install")],
     rule="case = (histogram, builder); distinct_nontrivial = distinct histograms; evaluations = builder calls + table decodes + round trips.")
+
+
+reg("C17", harness="c17_window", level="exploration", deadline=(300, 1800), extra_src=["ref/ref_inflate.c"],
+    technique="bounded-exhaustive enumeration of repeats at distances around 2^w and 32768/65536 x window sizes x levels x flush x APIs x CPU levels with a distance-measuring reference decoder and a window-limited foreign decoder; dictionary length/content/level/API products",
+    level_text="Inputs with a repeat exactly at distances 2^w-2..2^w+2 (w=9..15 and default), periodic inputs of those periods and repeats around "
+               "65536 are compressed for every level x flush x wrapper x API (one-shot, one call, 4 KiB chunks) x 6 CPU levels; the reference "
+               "decoder measures the maximum match distance (<= 2^w, <= 32768, never before the start) and zlib with a 2^w window and 1-byte "
+               "output chunks must accept the stream; the zlib header must advertise >= the window. Dictionaries of 10 lengths (1..70000) x 4 data "
+               "shapes x levels x 3 CPU levels: stream(dict) decodes with the last 32 KiB as history, equals stream(last 32 KiB only) and the "
+               "process_dict/reset_dict stream, round-trips through isal_inflate_set_dict and zlib; wrong-state calls are refused with the context "
+               "image unchanged.",
+    level_note="inputs beyond the designed families are not covered; h8k/lht builds are run in the thorough tier; trusted: ref_inflate distance accounting.",
+    runs={"quick": [dict(flavour="sim", part="window"), dict(flavour="sim", part="dict")],
+          "thorough": [dict(flavour="sim", part="window"), dict(flavour="sim", part="dict"), dict(flavour="h8k", part="window"), dict(flavour="lht", part="window")]},
+    rule="case = (input, hist_bits, level, flush, wrapper, api, cpu) / (dictionary length, data shape, level, cpu, API); distinct_nontrivial = "
+         "distinct verified streams / dictionary cases.")
